@@ -15,6 +15,7 @@ usage: fiat_edges.py <repo> <out.json> [func-regex] [--jobs N]
 import json, os, re, random, sys, time, multiprocessing
 
 M64 = (1 << 64) - 1
+SOLVER_MS = int(os.environ.get("FIAT_SOLVER_MS", "15000"))
 P = 0xFFFFFFFEFFFFFFFFFFFFFFFFFFFFFFFFFFFFFFFF00000000FFFFFFFFFFFFFFFF
 N = 0xFFFFFFFEFFFFFFFFFFFFFFFFFFFFFFFF7203DF6B21C6052B53BBF40939D54123
 
@@ -437,7 +438,7 @@ def solve_chunk(job):
                 continue
             sz, ai, li, cond, sargs = best
             s = z3.SolverFor("QF_BV")
-            s.set("timeout", 15000)
+            s.set("timeout", SOLVER_MS)
             s.add(cond)
             for row in sargs:
                 s.add(z3.ULT(z3.Concat(*[z(row[i]) for i in (3, 2, 1, 0)]), z3.BitVecVal(mod, 256)))
@@ -464,6 +465,27 @@ def main():
     names = [n for n in FUNCS if re.search(pat, n)]
     found = {n: {} for n in names}
     votes = {n: {} for n in names}
+    if "--targets-from" in sys.argv:
+        # second pass: only the (site, event) pairs an earlier run left undecided, with a longer solver budget
+        prev = json.load(open(sys.argv[sys.argv.index("--targets-from") + 1]))
+        jobs = []
+        for n in names:
+            tg = [(s_, e_) for s_, e_, v_ in prev["report"].get(n, {}).get("not_reached", []) if v_ < 6]
+            random.Random(2).shuffle(tg)
+            for i in range(0, len(tg), 4):
+                jobs.append((repo, n, 4242 + i, tg[i:i + 4], budget))
+        print("second-pass solve jobs:", len(jobs), flush=True)
+        allv = []
+        with multiprocessing.Pool(16) as pool:
+            for name, f, v, tg in pool.imap_unordered(solve_chunk, jobs):
+                for k, a in f.items():
+                    found[name].setdefault(k, a)
+                print(name, "now", len(found[name]), flush=True)
+        for n in names:
+            for k, a in sorted(found[n].items()):
+                allv.append({"fn": n, "site": k[0], "event": k[1], "args": [["%016x" % l for l in row] for row in a]})
+        json.dump({"vectors": allv, "report": {}}, open(outp, "w"), indent=0)
+        return
     with multiprocessing.Pool(16) as pool:
         for name, f in pool.imap_unordered(explore, [(repo, n, 12345 + i) for i, n in enumerate(names)]):
             found[name].update(f)
